@@ -16,6 +16,7 @@ mod gtchk;
 mod lpcomp;
 mod oraclechk;
 mod orders;
+mod perp;
 mod world;
 mod tlworld;
 mod cfgkeys;
